@@ -48,6 +48,9 @@ pub struct ImportGraph {
     pub relative: bool,
     #[serde(default)]
     pub stdlib_like_names: bool,
+    /// every import statement sits inside `try: … except ImportError: pass`
+    #[serde(default)]
+    pub guarded: bool,
 }
 
 fn module_name(src: usize, dst: usize, relative: bool, stdlib_like: bool) -> String {
@@ -115,6 +118,11 @@ impl ImportGraph {
             }
         }
         files.push(FileSpec::new("test_x.py", test_items));
+        if self.guarded {
+            for f in files.iter_mut() {
+                f.guarded_imports = true;
+            }
+        }
         Ws { files }
     }
 }
@@ -125,10 +133,10 @@ fn enumerate_graphs(max_edges: usize) -> Vec<ImportGraph> {
     let mut out = Vec::new();
     fn rec(slots: &[(usize, usize)], kinds: &[Kind], start: usize, cur: &mut Vec<(usize, usize, Kind)>, max: usize, out: &mut Vec<ImportGraph>) {
         for relative in [false, true] {
-            out.push(ImportGraph { edges: cur.clone(), relative, stdlib_like_names: false });
+            out.push(ImportGraph { edges: cur.clone(), relative, stdlib_like_names: false, guarded: false });
         }
         if !cur.is_empty() && cur.iter().all(|e| !matches!(e.2, Kind::Plugins | Kind::PluginsOverwritten)) {
-            out.push(ImportGraph { edges: cur.clone(), relative: true, stdlib_like_names: true });
+            out.push(ImportGraph { edges: cur.clone(), relative: true, stdlib_like_names: true, guarded: false });
         }
         if cur.len() == max {
             return;
@@ -143,6 +151,12 @@ fn enumerate_graphs(max_edges: usize) -> Vec<ImportGraph> {
         }
     }
     rec(&slots, &kinds, 0, &mut Vec::new(), max_edges, &mut out);
+    // graphs of star / explicit imports once more with every import statement guarded by try / except ImportError
+    let guarded: Vec<ImportGraph> = out.iter().filter(|g| !g.edges.is_empty() && !g.stdlib_like_names && g.edges.len() < max_edges && g.edges.iter().all(|e| matches!(e.2, Kind::Star | Kind::Explicit))).cloned().collect();
+    for mut g in guarded {
+        g.guarded = true;
+        out.push(g);
+    }
     // the test module imports from a helper itself (one such edge, every kind of import statement),
     // on top of every graph with up to max_edges - 1 other edges
     let base: Vec<ImportGraph> = out.iter().filter(|g| g.edges.len() < max_edges && !g.stdlib_like_names).cloned().collect();
@@ -151,7 +165,7 @@ fn enumerate_graphs(max_edges: usize) -> Vec<ImportGraph> {
             for k in [Kind::Star, Kind::Explicit, Kind::ExplicitAll] {
                 let mut e = g.edges.clone();
                 e.push((4, d, k));
-                out.push(ImportGraph { edges: e, relative: g.relative, stdlib_like_names: false });
+                out.push(ImportGraph { edges: e, relative: g.relative, stdlib_like_names: false, guarded: false });
             }
         }
     }
@@ -171,7 +185,7 @@ fn check_graph(rep: &Report, g: &ImportGraph, scans: &AtomicU64) {
     let tpath = ws.path_in(&root, test);
     let case = || json!({"graph": g, "files": ws.files.iter().enumerate().map(|(i, f)| json!({"path": f.rel, "text": r.texts[i]})).collect::<Vec<_>>()});
     let kinds: BTreeSet<String> = g.edges.iter().map(|e| format!("{:?}", e.2)).collect();
-    let ctx = format!("edge kinds {:?}, {} spelling{}", kinds, if g.relative { "relative" } else { "absolute" }, if g.stdlib_like_names { ", modules named like standard-library modules" } else { "" });
+    let ctx = format!("edge kinds {:?}, {} spelling{}", kinds, if g.relative { "relative" } else { "absolute" }, if g.stdlib_like_names { ", modules named like standard-library modules" } else if g.guarded { ", imports inside try / except ImportError" } else { "" });
     // resolver walk: go-to-definition of each name from the test file
     let mut visible_model: BTreeSet<String> = BTreeSet::new();
     for u in r.usages.iter().filter(|u| u.file == test) {
@@ -486,7 +500,7 @@ pub fn run(rep: &'static Report) {
     for (how_in, how_out) in [("star", "star"), ("star", "plugins"), ("plugins", "star"), ("plugins", "plugins")] {
         let imp = |how: &str, m: &str| if how == "star" { Item::StarImport { module: m.into() } } else { Item::PytestPlugins { modules: vec![m.into()] } };
         let ws = Ws { files: vec![
-            FileSpec { rel: "plug/myplug.py".into(), plugin: true, items: vec![imp(how_in, "conftest"), Item::fixture("pfx", &[])] },
+            FileSpec { rel: "plug/myplug.py".into(), plugin: true, guarded_imports: false, items: vec![imp(how_in, "conftest"), Item::fixture("pfx", &[])] },
             FileSpec::new("plug/conftest.py", vec![imp(how_out, "deep"), Item::fixture("cfx", &[])]),
             FileSpec::new("plug/deep.py", vec![imp(how_out, "deeper"), Item::fixture("deep_fx", &[])]),
             FileSpec::new("plug/deeper.py", vec![Item::fixture("deeper_fx", &[])]),
